@@ -63,6 +63,17 @@ Theorem prepare_cost_repaired_polynomial :
 Proof. exact (fun sch root q n => prepare_memo_cost repaired sch root q n eq_refl). Qed.
 Print Assumptions prepare_cost_repaired_polynomial.
 
+(** … and Flatten (run by the executor on every selection set, with the executor's own budget): it marks
+    a fragment's selection set before walking it and never walks a marked one again, so one call makes
+    at most 1 + |selection set| + |fragments| visits - not 2^depth for fragments that spread the next
+    fragment several times in one selection set.  (A Flatten that marks a set only when it is taken off
+    a work list walks such a set once per spread: the harness's nestnext families execute that.) *)
+Theorem flatten_cost_linear :
+  forall (v : variant) (tbl : ftable) (items : list titem) (st : fstate),
+    flatten v tbl items = ROk st -> f_cost st <= 1 + items_size items + ftable_size tbl.
+Proof. exact flatten_linear. Qed.
+Print Assumptions flatten_cost_linear.
+
 (** 2b. What runs after Parse on the same untrusted query cannot crash either.  Flatten (called by the
     executor on every selection set of the query) and PrepareQuery recurse through fragment spreads
     with no check of their own; they are safe on every query Parse returned, on any selection set
